@@ -98,7 +98,11 @@ impl Serialize for Val {
 pub struct Ctx {
     /// (address, len, borrowed?) in visit order
     pub strs: RefCell<Vec<(usize, usize, bool)>>,
+    /// set when the harness visitor stopped a zero-width element flood (case must be skipped)
+    pub flood: std::cell::Cell<bool>,
 }
+
+pub const ZERO_WIDTH_FLOOD_LIMIT: usize = 300_000;
 
 impl Ctx {
     pub fn new() -> Self {
@@ -106,6 +110,7 @@ impl Ctx {
     }
     pub fn clear(&self) {
         self.strs.borrow_mut().clear();
+        self.flood.set(false);
     }
 }
 
@@ -248,28 +253,28 @@ impl<'de, 's> Visitor<'de> for V<'s> {
         }
     }
     fn visit_borrowed_str<E: de::Error>(self, v: &'de str) -> Result<Val, E> {
-        self.ctx.strs.borrow_mut().push((v.as_ptr() as usize, v.len(), true));
+        crate::mem::uncounted(|| self.ctx.strs.borrow_mut().push((v.as_ptr() as usize, v.len(), true)));
         match self.t {
             Target::Shape(Shape::Str) => Ok(Val::Str(v.to_string())),
             _ => Err(E::custom("unexpected str")),
         }
     }
     fn visit_str<E: de::Error>(self, v: &str) -> Result<Val, E> {
-        self.ctx.strs.borrow_mut().push((v.as_ptr() as usize, v.len(), false));
+        crate::mem::uncounted(|| self.ctx.strs.borrow_mut().push((v.as_ptr() as usize, v.len(), false)));
         match self.t {
             Target::Shape(Shape::Str) => Ok(Val::Str(v.to_string())),
             _ => Err(E::custom("unexpected str")),
         }
     }
     fn visit_borrowed_bytes<E: de::Error>(self, v: &'de [u8]) -> Result<Val, E> {
-        self.ctx.strs.borrow_mut().push((v.as_ptr() as usize, v.len(), true));
+        crate::mem::uncounted(|| self.ctx.strs.borrow_mut().push((v.as_ptr() as usize, v.len(), true)));
         match self.t {
             Target::Shape(Shape::Bytes) => Ok(Val::Bytes(v.to_vec())),
             _ => Err(E::custom("unexpected bytes")),
         }
     }
     fn visit_bytes<E: de::Error>(self, v: &[u8]) -> Result<Val, E> {
-        self.ctx.strs.borrow_mut().push((v.as_ptr() as usize, v.len(), false));
+        crate::mem::uncounted(|| self.ctx.strs.borrow_mut().push((v.as_ptr() as usize, v.len(), false)));
         match self.t {
             Target::Shape(Shape::Bytes) => Ok(Val::Bytes(v.to_vec())),
             _ => Err(E::custom("unexpected bytes")),
@@ -284,7 +289,8 @@ impl<'de, 's> Visitor<'de> for V<'s> {
     fn visit_some<D: de::Deserializer<'de>>(self, d: D) -> Result<Val, D::Error> {
         match self.t {
             Target::Shape(Shape::Option(inner)) => {
-                Ok(Val::Some(Box::new(Seed { shape: inner, ctx: self.ctx }.deserialize(d)?)))
+                let v = Seed { shape: inner, ctx: self.ctx }.deserialize(d)?;
+                Ok(Val::Some(crate::mem::uncounted(|| Box::new(v))))
             }
             _ => Err(de::Error::custom("unexpected some")),
         }
@@ -299,7 +305,8 @@ impl<'de, 's> Visitor<'de> for V<'s> {
     fn visit_newtype_struct<D: de::Deserializer<'de>>(self, d: D) -> Result<Val, D::Error> {
         match self.t {
             Target::Shape(Shape::NewtypeStruct(n, inner)) => {
-                Ok(Val::NewtypeStruct(n, Box::new(Seed { shape: inner, ctx: self.ctx }.deserialize(d)?)))
+                let v = Seed { shape: inner, ctx: self.ctx }.deserialize(d)?;
+                Ok(Val::NewtypeStruct(n, crate::mem::uncounted(|| Box::new(v))))
             }
             _ => Err(de::Error::custom("unexpected newtype struct")),
         }
@@ -307,7 +314,8 @@ impl<'de, 's> Visitor<'de> for V<'s> {
     fn visit_seq<A: SeqAccess<'de>>(self, mut seq: A) -> Result<Val, A::Error> {
         let ctx = self.ctx;
         fn fixed<'de, 's, A: SeqAccess<'de>>(seq: &mut A, ctx: &'s Ctx, f: &'s [Shape]) -> Result<Vec<Val>, A::Error> {
-            let mut out = Vec::with_capacity(f.len());
+            // fixed-arity containers live on the stack in real derived types: not counted
+            let mut out = crate::mem::uncounted(|| Vec::with_capacity(f.len()));
             for (i, s) in f.iter().enumerate() {
                 match seq.next_element_seed(Seed { shape: s, ctx })? {
                     Some(v) => out.push(v),
@@ -321,7 +329,7 @@ impl<'de, 's> Visitor<'de> for V<'s> {
             ctx: &'s Ctx,
             f: &'s [(Name, Shape)],
         ) -> Result<Vec<(Name, Val)>, A::Error> {
-            let mut out = Vec::with_capacity(f.len());
+            let mut out = crate::mem::uncounted(|| Vec::with_capacity(f.len()));
             for (i, (n, s)) in f.iter().enumerate() {
                 match seq.next_element_seed(Seed { shape: s, ctx })? {
                     Some(v) => out.push((*n, v)),
@@ -334,8 +342,16 @@ impl<'de, 's> Visitor<'de> for V<'s> {
             Target::Shape(Shape::Seq(elem)) => {
                 // like Vec<T>'s visitor
                 let mut out: Vec<Val> = Vec::with_capacity(cautious::<Val>(seq.size_hint()));
+                let zero_width = elem.min_wire() == 0;
                 while let Some(v) = seq.next_element_seed(Seed { shape: elem, ctx })? {
                     out.push(v);
+                    // harness self-protection: a sequence of zero-width elements costs time and
+                    // memory proportional to its *claimed* length by construction of serde's
+                    // visitors (outside the properties' claims); stop the visitor, flag the case.
+                    if zero_width && out.len() > ZERO_WIDTH_FLOOD_LIMIT {
+                        ctx.flood.set(true);
+                        return Err(de::Error::custom("harness: zero-width element flood"));
+                    }
                 }
                 Ok(Val::Seq(out))
             }
@@ -351,9 +367,14 @@ impl<'de, 's> Visitor<'de> for V<'s> {
         match self.t {
             Target::Shape(Shape::Map(k, v)) => {
                 let mut out: Vec<(Val, Val)> = Vec::with_capacity(cautious::<(Val, Val)>(map.size_hint()));
+                let zero_width = k.min_wire() + v.min_wire() == 0;
                 while let Some(kk) = map.next_key_seed(Seed { shape: k, ctx: self.ctx })? {
                     let vv = map.next_value_seed(Seed { shape: v, ctx: self.ctx })?;
                     out.push((kk, vv));
+                    if zero_width && out.len() > ZERO_WIDTH_FLOOD_LIMIT {
+                        self.ctx.flood.set(true);
+                        return Err(de::Error::custom("harness: zero-width element flood"));
+                    }
                 }
                 Ok(Val::Map(out))
             }
@@ -370,12 +391,10 @@ impl<'de, 's> Visitor<'de> for V<'s> {
                         variant.unit_variant()?;
                         Ok(Val::UnitVariant(n, idx, v.name))
                     }
-                    VData::Newtype(inner) => Ok(Val::NewtypeVariant(
-                        n,
-                        idx,
-                        v.name,
-                        Box::new(variant.newtype_variant_seed(Seed { shape: inner, ctx: self.ctx })?),
-                    )),
+                    VData::Newtype(inner) => {
+                        let x = variant.newtype_variant_seed(Seed { shape: inner, ctx: self.ctx })?;
+                        Ok(Val::NewtypeVariant(n, idx, v.name, crate::mem::uncounted(|| Box::new(x))))
+                    }
                     VData::Tuple(f) => {
                         variant.tuple_variant(f.len(), V { t: Target::VTuple(n, idx, v.name, f), ctx: self.ctx })
                     }
@@ -704,6 +723,11 @@ pub fn with_shape<R>(shape: &Shape, f: impl FnOnce() -> R) -> R {
     let _r = Reset(prev);
     DYN_CTX.with(|c| c.clear());
     f()
+}
+
+/// Did the harness visitor stop a zero-width flood since the last `with_shape`?
+pub fn flooded() -> bool {
+    DYN_CTX.with(|c| c.flood.get())
 }
 
 /// Pointer ranges recorded by the visitors since the last `with_shape`.
